@@ -11,6 +11,7 @@ structure G (cfg : Cfg) (s : St) : Prop where
   sf : Gsf s
   res : Gres s
   ack : Gack s
+  fo : Gfo s
 
 /-- `x` is a good successor of `s`: the invariant holds and the executing generator is untouched. -/
 def Good (cfg : Cfg) (s x : St) : Prop := G cfg x ∧ x.frame = s.frame
@@ -42,17 +43,22 @@ macro "gres_fields" : tactic => `(tactic|
 macro "gack_fields" : tactic => `(tactic|
   (constructor <;> ((try unfold emit at *); grind [C03.ackStep, ackJ_congr, ackJ_cons, ackJ_commitOk, ackJ_offsetFetch, runR_cons])))
 
+/-- close `Gfo X` likewise -/
+macro "gfo_fields" : tactic => `(tactic|
+  (constructor <;> ((try unfold emit at *); grind [C13.foStep, runR_cons])))
+
 /-- `Good cfg s X` for an explicit update `X` of `x`, from `hx : Good cfg s x`. -/
 syntax "leaf" ident : tactic
 macro_rules
   | `(tactic| leaf $hx) => `(tactic|
       (obtain ⟨⟨⟨h1, h2, h2b, h3, h4, h5, h6, h7, h8, h9, h10, h11, h12, h13⟩,
-                ⟨k1, k2, k3, k4, k5, k6⟩, ⟨r1, r2⟩, ⟨a1, a2, a3⟩⟩, hfr⟩ := $hx
-       refine ⟨⟨?_, ?_, ?_, ?_⟩, ?_⟩
+                ⟨k1, k2, k3, k4, k5, k6⟩, ⟨r1, r2⟩, ⟨a1, a2, a3⟩, ⟨f1, f2, f3⟩⟩, hfr⟩ := $hx
+       refine ⟨⟨?_, ?_, ?_, ?_, ?_⟩, ?_⟩
        · g1_fields
        · gsf_fields
        · gres_fields
        · gack_fields
+       · gfo_fields
        · first | exact hfr | (simp only []; exact hfr) | grind))
 
 /-- `G cfg X` for an explicit update `X` of `x` (which may replace the frame), from `hx : G cfg x`. -/
@@ -60,12 +66,13 @@ syntax "gleaf" ident : tactic
 macro_rules
   | `(tactic| gleaf $hx) => `(tactic|
       (obtain ⟨⟨h1, h2, h2b, h3, h4, h5, h6, h7, h8, h9, h10, h11, h12, h13⟩,
-               ⟨k1, k2, k3, k4, k5, k6⟩, ⟨r1, r2⟩, ⟨a1, a2, a3⟩⟩ := $hx
-       refine ⟨?_, ?_, ?_, ?_⟩
+               ⟨k1, k2, k3, k4, k5, k6⟩, ⟨r1, r2⟩, ⟨a1, a2, a3⟩, ⟨f1, f2, f3⟩⟩ := $hx
+       refine ⟨?_, ?_, ?_, ?_, ?_⟩
        · g1_fields
        · gsf_fields
        · gres_fields
-       · gack_fields))
+       · gack_fields
+       · gfo_fields))
 
 /-- `Pres cfg h` for a handler that calls no other handler: unfold and check every path. -/
 syntax "pres_leaf" "[" ident* "]" : tactic
@@ -76,12 +83,13 @@ macro_rules
        unfold $ds*
        (try unfold emit)
        obtain ⟨⟨⟨h1, h2, h2b, h3, h4, h5, h6, h7, h8, h9, h10, h11, h12, h13⟩,
-                ⟨k1, k2, k3, k4, k5, k6⟩, ⟨r1, r2⟩, ⟨a1, a2, a3⟩⟩, hfr⟩ := hx
-       refine ⟨⟨?_, ?_, ?_, ?_⟩, ?_⟩
+                ⟨k1, k2, k3, k4, k5, k6⟩, ⟨r1, r2⟩, ⟨a1, a2, a3⟩, ⟨f1, f2, f3⟩⟩, hfr⟩ := hx
+       refine ⟨⟨?_, ?_, ?_, ?_, ?_⟩, ?_⟩
        · g1_fields
        · gsf_fields
        · gres_fields
        · gack_fields
+       · gfo_fields
        · grind))
 
 /-- the outstanding fetch/offset request is never the commit request -/
